@@ -307,6 +307,9 @@ func genC08(run *hx.Run, r *hx.Rng) {
 			env := Env{Mode: "n"}
 			if r.Chance(15) {
 				env = Env{Mode: []string{"v", "f", "i"}[r.Intn(3)], Op: uint64(1 + r.Intn(4))}
+				if r.Chance(20) {
+					env = Env{Mode: "w", Op: uint64(weirdOpFirst + r.Intn(weirdOpLast-weirdOpFirst+1))}
+				}
 			}
 			if r.Chance(15) {
 				// through the pubsub entry point (its own case, after this one)
@@ -331,10 +334,13 @@ func genC08(run *hx.Run, r *hx.Rng) {
 		}
 	}
 	unservedIDStream(run, r)
+	weirdOperatorSweep(run, r)
+	pubsubWrapperSweep(run, r)
 	genKernels(run, r, run.N/10)
 	genFuzz(run, r, run.N*3/10)
 	genNodeInfoStruct(run, r, run.N/4)
 	genRecords(run, r, run.N/2)
+	genMsgIDGC(run, r)
 	hangBlock(run, r) // last: if it deadlocks the validator the harness reports and exits
 }
 
@@ -604,6 +610,8 @@ func runFuzzTarget(run *hx.Run, target string, b []byte) {
 			_ = (&records.SignedNodeInfo{}).Consume(b)
 			_ = (&records.NodeInfo{}).Consume(b)
 		})
+	case "pubsub-full":
+		guarded(run, target, b, func() { pubsubFullTarget(b) })
 	case "enr-record":
 		guarded(run, target, b, func() { enrRecordTarget(b) })
 	case "subnets":
@@ -870,6 +878,13 @@ func genFuzz(run *hx.Run, r *hx.Rng, n int) {
 	seeds := fuzzSeeds(run, r)
 	targets := []string{"pubsub", "signed", "net", "queue", "nodeinfo", "subnets", "subnets-use", "enr-record"}
 	seeds["enr-record"] = enrSeeds(r)
+	targets = append(targets, "pubsub-full")
+	for _, b := range seeds["net"] {
+		seeds["pubsub-full"] = append(seeds["pubsub-full"], append([]byte{0}, b...))
+	}
+	for _, b := range seeds["signed"] {
+		seeds["pubsub-full"] = append(seeds["pubsub-full"], append([]byte{1}, b...))
+	}
 	for i := 0; i < n; i++ {
 		tg := targets[r.Intn(len(targets))]
 		var b []byte
